@@ -458,6 +458,29 @@ def mem_replace(c):
     return [(c.st, c.top_ret())]
 
 
+@first(r"^std::mem::take::<.*>$|^core::mem::take::<.*>$")
+def mem_take(c):
+    """`mem::take(&mut x)`: hands out x and leaves the type's default (false, 0, None, an empty container) behind"""
+    from absint.interp import int_range
+    r = c.args[0]
+    t = c.ret_ty()
+    dflt = None
+    if t.get("k") == "bool":
+        dflt = Num(Lin.const(0)) if c.it.bool_vars else Cond("const", False)
+    elif int_range(t) is not None:
+        dflt = Num(Lin.const(0))
+    elif t.get("k") == "adt" and t.get("path") == OPTION:
+        dflt = Enum(OPTION, {0: Struct()})
+    elif t.get("k") == "adt" and t.get("path") in ("std::vec::Vec", "std::string::String"):
+        dflt = Seq(Lin.const(0), None, EMPTY)
+    if isinstance(r, Ref) and dflt is not None:
+        old = c.it.load(c.st, r.cell, r.path)
+        c.it.store(c.st, r.cell, r.path, dflt)
+        return [(c.st, old)]
+    c.havoc_mut_args()
+    return [(c.st, c.top_ret())]
+
+
 @first(r"^std::mem::swap::<.*>$|^core::mem::swap::<.*>$")
 def mem_swap(c):
     a, b = c.args[0], c.args[1]
